@@ -61,7 +61,11 @@ WORLDS = {
     'vga2+w': dict(cfg={'p': 2, 'q': 0, 'r': 0}, wrapper=True),
     'pga2': dict(cfg={'p': 2, 'q': 0, 'r': 1}, wrapper=False),
     'pga2+w': dict(cfg={'p': 2, 'q': 0, 'r': 1}, wrapper=True),
+    # all 6 storage orders of one key set whose renderings (decimal 2,1,17 / hex 2,1,11) could collide in a name
+    'perm5+w': dict(cfg={'p': 5, 'q': 0, 'r': 0}, wrapper=True, perm=True),
+    'perm5': dict(cfg={'p': 5, 'q': 0, 'r': 0}, wrapper=False, perm=True),
 }
+PERMS = [(1, 2, 17), (1, 17, 2), (2, 1, 17), (2, 17, 1), (17, 1, 2), (17, 2, 1)]
 
 
 def make_world(world_id):
@@ -71,6 +75,17 @@ def make_world(world_id):
     alg = Algebra(cfg['p'], cfg['q'], cfg['r'], wrapper=Tag if w['wrapper'] else None)
     other = Algebra(cfg['p'] + 1, cfg['q'], cfg['r'])
     mv = lambda keys, vals: alg.multivector(keys=tuple(keys), values=[F(v) for v in vals])
+    if w.get('perm'):
+        val = {1: 3, 2: 5, 17: 7}
+        ctx = dict(alg=alg, other=other, e=mv((3,), (1,)))
+        for i, p in enumerate(PERMS):
+            ctx[f'q{i}'] = mv(p, [val[k] for k in p])
+
+        def f(a, b):
+            return a * b + a
+        ctx['f'] = alg.register(f)
+        ctx['_operands'] = [f'q{i}' for i in range(6)] + ['e']
+        return ctx
     if cfg['r'] == 0:
         # Algebra(2): keys 1=e1, 2=e2, 3=e12; canonical order (0,1,2,3)
         x1 = mv((1, 2), (3, 5))
@@ -138,6 +153,10 @@ SYMBOLS = {
     'mix': lambda c: c['x1'] * c['y'],
     'neg2': lambda c: -c['x2'],
 }
+for _i in range(6):
+    SYMBOLS[f'pg{_i}'] = (lambda i: lambda c: c[f'q{i}'] * c['e'])(_i)
+    SYMBOLS[f'pf{_i}'] = (lambda i: lambda c: c['f'](c[f'q{i}'], c['e']))(_i)
+PERM_ALPHA = [f'pg{i}' for i in range(6)] + ['pf2', 'pf3']
 QUICK = ['gp1', 'gp2', 'gp5', 'sw2', 'inv5', 'f2', 'sq5', 'div0']
 THOROUGH = QUICK + ['g2', 'hs2', 'call2', 'add2', 'mix']
 _ALPHA = {'quick': QUICK, 'thorough': THOROUGH}
@@ -146,6 +165,8 @@ _tier = ['quick']
 
 def alphabet(world_id):
     tier = world_id.split('|')[1] if '|' in world_id else _tier[0]
+    if WORLDS[_wid(world_id)].get('perm'):
+        return {n: SYMBOLS[n] for n in PERM_ALPHA}
     return {n: SYMBOLS[n] for n in _ALPHA[tier]}
 
 
@@ -225,6 +246,9 @@ def reference_check(world_id):
         'sq5': lambda: ref.gp(R('x5'), R('x5')), 'add2': lambda: Ref.add(R('x2'), R('e')), 'neg2': lambda: Ref.neg(R('x2')),
         'call2': lambda: ref.gp(R('x2'), R('e')), 'call1': lambda: ref.gp(R('x1'), R('e')),
     }
+    for i in range(6):
+        want[f'pg{i}'] = (lambda i: lambda: ref.gp(R(f'q{i}'), R('e')))(i)
+        want[f'pf{i}'] = (lambda i: lambda: Ref.add(ref.gp(R(f'q{i}'), R('e')), R(f'q{i}')))(i)
     for name, fn in alphabet(world_id).items():
         if name not in want:
             continue
@@ -323,7 +347,7 @@ def drive(ctx):
             ctx.capped.append(f'bfs[{world_id}]: {r["capped"]}')
         samples.append({'world': world_id, 'longest_shortest_history': list(r['sample_path'])})
         # wrapper fault menu
-        if WORLDS[_wid(world_id)]['wrapper']:
+        if WORLDS[_wid(world_id)]['wrapper'] and not WORLDS[_wid(world_id)].get('perm'):
             from itertools import product
             maxk, maxlen = (2, 2) if tier == 'quick' else (4, 3)
             names = list(alphabet(world_id))
